@@ -282,13 +282,15 @@ def rootnode_solver(A, B=None, BH=None,
 
     # Levelize the user parameters, so that they become lists describing the
     # desired user option on each level.
+    aggregate_option = aggregate
     max_levels, max_coarse, aggregate =\
-        levelize_strength_or_aggregation(aggregate, max_levels, max_coarse)
+        levelize_strength_or_aggregation(aggregate_option, max_levels, max_coarse)
     max_levels, max_coarse, strength =\
         levelize_strength_or_aggregation(strength, max_levels, max_coarse)
-    # a predefined strength list may have raised max_levels: extend aggregate accordingly
+    # a predefined strength list may have raised max_levels: levelize the user's
+    # aggregate option once more with the final limits
     max_levels, max_coarse, aggregate =\
-        levelize_strength_or_aggregation(aggregate, max_levels, max_coarse)
+        levelize_strength_or_aggregation(aggregate_option, max_levels, max_coarse)
     improve_candidates =\
         levelize_smooth_or_improve_candidates(improve_candidates, max_levels)
     smooth = levelize_smooth_or_improve_candidates(smooth, max_levels)
